@@ -300,6 +300,11 @@ def cache_key_obligation(run, it):
         # system is served the other's values (id() is injective over live objects: A11)
         u = Universe(it, ctx)
         ks = list(u.key.items())
+        # ... and a CLONE of a system that has already been used (copy.copy / deepcopy / unpickling duplicate the instance dictionary): another object,
+        # typically given another metric afterwards, so it must not be served the original's entries either
+        kf = u.mod.resolve("_cache_key_func", ctx)
+        clone = Obj(u.sysA.cls, dict(u.sysA.attrs))
+        ks.append((("f", "clone-of-A"), u.ex.call(kf, [clone, "f"], {})))
         clash = [(a[0], b[0]) for i, a in enumerate(ks) for b in ks[i + 1:] if a[1] == b[1]]
         run.ob(P + "_cache_key_func/distinct-keys-for-distinct-system-objects-and-methods", core.DISCHARGED if not clash else core.FAILED, "pyvc-enum",
                detail="" if not clash else f"same cache key for {clash[0][0]} and {clash[0][1]} (method, system): {ks[0][1] if False else dict(ks)[clash[0][0]]!r}",
